@@ -143,6 +143,7 @@ class Ctx:
         self.call_log: List[Any] = []  # calls made through contracts on this path, in order (ghost; see speclib.CALLS)
         self.top_contract = None
         self.top_ns = None
+        self.ysym = None  # symbolic sequence of yields (generators with yields inside invariant loops)
         self.entry_measure = None
 
     # ---- fresh symbols
@@ -882,7 +883,10 @@ class Engine:
             cls = self.repo.cls(v.kind.clsname)
             el = z3.Select(v.arr, i)
             rng = z3.Or(*[self.tag_fn(el) == self.class_id(c) for c in cls.instantiable_subclasses()])
-            ctx.add_axiom(z3.ForAll([i], z3.Implies(z3.And(0 <= i, i < v.length), rng), patterns=[el]))
+            try:
+                ctx.add_axiom(z3.ForAll([i], z3.Implies(z3.And(0 <= i, i < v.length), rng), patterns=[el]))
+            except z3.Z3Exception:  # the array term is not usable as a trigger (e.g. it contains an if-then-else)
+                ctx.add_axiom(z3.ForAll([i], z3.Implies(z3.And(0 <= i, i < v.length), rng)))
         elif isinstance(v, OptV):
             self.assume_wellformed(ctx, v.val)
         elif isinstance(v, RecV):
@@ -1009,6 +1013,13 @@ class Engine:
                 from . import mutstate
 
                 ns.__dict__["old_" + pname] = mutstate.snapshot(pval)  # pre-state of a materialised (mutable) argument
+        for pname in getattr(contract.impl, "mutates", None) or []:
+            # collections received as parameters that the contract allows the function to mutate in place
+            from . import ext_reader
+
+            pval = args[pname]
+            pval.fresh = True
+            ns.__dict__["old_" + pname] = ext_reader.snapshot_collection(pval)
         ns.__dict__["old"] = make_old_view(ns, ns.__dict__.get("old"))
         if self_obj is not None and not is_init:
             for label, inv in self.class_invariants(ctx, self_obj):
@@ -1044,11 +1055,11 @@ class Engine:
             self.exec_block(ctx, finfo.node.body, env)
             result = None
             if finfo.is_generator:
-                result = V.GeneratorV(ctx.yielded)
+                result = ctx.ysym if getattr(ctx, "ysym", None) is not None else V.GeneratorV(ctx.yielded)
         except ReturnSig as r:
             result = r.value
             if finfo.is_generator:
-                result = V.GeneratorV(ctx.yielded)
+                result = ctx.ysym if getattr(ctx, "ysym", None) is not None else V.GeneratorV(ctx.yielded)
         except PyRaise as pr:
             if res is not None:
                 res.raising_paths += 1
@@ -1875,7 +1886,10 @@ class Engine:
 
     def ex_Yield(self, ctx, e, env):
         v = self.eval(ctx, e.value, env) if e.value is not None else None
-        ctx.yielded.append(v)
+        if getattr(ctx, "ysym", None) is not None:
+            ctx.ysym.push(v)
+        else:
+            ctx.yielded.append(v)
         return None
 
     def ex_Call(self, ctx, e, env):
@@ -2074,7 +2088,22 @@ class Engine:
             return self.call_decorated(ctx, finfo, args, kwargs)
         if not (nested or inline_ok or private_helper or finfo.is_property or isinstance(finfo.node, ast.Lambda)
                 or finfo.qualname in self.reg.inline or raw):
-            raise EngineLimit("call of %s: no contract and not declared inlinable" % finfo.qualname)
+            # a function of the same module (or a method of the receiver's class) that nobody wrote a contract for - on
+            # the pinned tree there is none on any verified path, so this is code that appeared after the contracts were
+            # written (e.g. a helper factored out): its body is its own strongest contract, inline it (bounded depth,
+            # no recursion) instead of giving up
+            top = ctx.func.split("[")[0].split("<")[0]
+            top_f = self.repo.functions.get(top)
+            same_module = top_f is not None and finfo.module is top_f.module
+            active = getattr(ctx, "inline_stack", [])
+            if not (same_module and finfo.qualname not in active and finfo.qualname != top and ctx.inline_depth < 3
+                    and not finfo.is_generator):
+                raise EngineLimit("call of %s: no contract and not declared inlinable" % finfo.qualname)
+            ctx.__dict__.setdefault("inline_stack", []).append(finfo.qualname)
+            try:
+                return self.inline_call(ctx, finfo, args, kwargs, closure)
+            finally:
+                ctx.inline_stack.pop()
         return self.inline_call(ctx, finfo, args, kwargs, closure)
 
     def dispatch_inline(self, ctx, finfo, overriders, selfv, args, kwargs):
@@ -2151,6 +2180,12 @@ class Engine:
                     ns.__dict__["old_" + pname] = mutstate.snapshot(pval)  # pre-state of a materialised (mutable) argument
                 elif getattr(contract.impl, "publishes_args", False):
                     mutstate.publish(self, ctx, pval)  # a fresh immutable object handed to a constructor that keeps it
+        for pname in getattr(contract.impl, "mutates", None) or []:
+            from . import ext_reader
+
+            if pname in contract.params:
+                ext_reader.coerce_collection(ctx, nsd[pname], contract.params[pname])
+            ns.__dict__["old_" + pname] = ext_reader.snapshot_collection(nsd[pname])
         if getattr(contract.impl, "publishes_args", False):
             for pname, pval in list(nsd.items()):
                 if pname != "self" and isinstance(pval, PyList):  # a literal list of fresh immutable objects that is kept
@@ -2269,10 +2304,19 @@ class Engine:
                     if k is not None:
                         nsd["self"].fields[fname] = ctx.fresh_kind("havoc." + fname, k)
                 V.bind_owner(nsd["self"])
+            if getattr(contract.impl, "havoc_heap", False):
+                from . import ext_reader
+
+                ext_reader.heap_havoc(ctx)  # the callee may fill caches of the ghost heap (never clears them)
             hv = getattr(contract.impl, "havoc", None)
             if hv is not None:
                 # fields of materialised objects reachable from the arguments that the callee may assign
                 for hentry in self.run_spec(ctx, hv, ns):
+                    if isinstance(hentry[0], (SymSet, SymMap)):
+                        from . import ext_reader
+
+                        ext_reader.havoc_in_place(ctx, hentry[0], "havoc.%s" % (hentry[1] if len(hentry) > 1 else "collection"))
+                        continue
                     hobj, fname = hentry[0], hentry[1]
                     if not isinstance(hobj, Obj) or hobj.fields is None:
                         raise EngineLimit("havoc of a field of a non-materialised object")
